@@ -86,6 +86,24 @@ Proof. exact gre_emit_ref. Qed.
 Print Assumptions C08_emit_udp.
 Print Assumptions C08_emit_gre.
 
+(* ---- junk in the checksum field position: the emitters clear the field before summing, so the
+   written checksum (and the written bytes) do not depend on what the buffer held there (reused
+   SerializeBuffer).  Independence of the other bytes from buffer leftovers is C07_<layer>_junk_free. ---- *)
+Theorem C08_emit_junk_free_ip4 : forall hdr v, ip4_emit (put16 hdr 10 v) = ip4_emit hdr.
+Proof. exact ip4_emit_put16. Qed.
+Theorem C08_emit_junk_free_tcp : forall p bs v, tcp_emit p (put16 bs 16 v) = tcp_emit p bs.
+Proof. exact tcp_emit_put16. Qed.
+Theorem C08_emit_junk_free_udp : forall p bs v, udp_emit p (put16 bs 6 v) = udp_emit p bs.
+Proof. exact udp_emit_put16. Qed.
+Theorem C08_emit_junk_free_icmp4 : forall bs v, icmp4_emit (put16 bs 2 v) = icmp4_emit bs.
+Proof. exact icmp4_emit_put16. Qed.
+Theorem C08_emit_junk_free_icmp6 : forall p bs v, icmp6_emit p (put16 bs 2 v) = icmp6_emit p bs.
+Proof. exact icmp6_emit_put16. Qed.
+Theorem C08_emit_junk_free_gre : forall bs v, (8 <= length bs)%nat -> 128 <= nthZ bs 0 ->
+  gre_emit (put16 bs 4 v) = gre_emit bs.
+Proof. exact gre_emit_put16. Qed.
+Print Assumptions C08_emit_junk_free_tcp.
+
 (* with a pseudo-header the sum is never 0, so 0xffff is written only through the UDP rule *)
 Theorem C08_pseudo_never_ffff : forall p proto b0, pseudo_ok p -> 0 < proto < 256 -> bytes_ok b0 -> len_ok p b0 ->
   reference p proto b0 <> 65535.
